@@ -41,7 +41,7 @@ def frame_obligations(eng, prefix, st, old, allowed, kind="frame"):
             continue
         if arr.eq(base):
             continue
-        if key in allowed:
+        if key in allowed or key in getattr(eng.reg, "auto_keys", ()):
             continue
         objs = [o for (kk, o) in [a for a in allowed if isinstance(a, tuple)] if kk == key]
         r = z3.Int("fr_r")
@@ -69,7 +69,7 @@ def nohavoc_obligations(eng, c, s, old, env, prefix):
     r = z3.Int("fr_r")
     for key, arr in sg.heap.items():
         base = old.heap.get(key)
-        if base is None or arr.eq(base) or key in allowed:
+        if base is None or arr.eq(base) or key in allowed or key in getattr(eng.reg, "auto_keys", ()):
             continue
         objs = [o for (kk, o) in [a for a in allowed if isinstance(a, tuple)] if kk == key]
         conj.append(z3.ForAll([r], z3.Implies(z3.And(r < eng.A0, *[r != o.t for o in objs]),
@@ -136,8 +136,24 @@ def verify_function(table, reg, qual, cls, props, timeout_ms=None):
             names = names[1:]
         elif f.is_classmethod:
             names = names[1:]
+        defaults = {}
+        pos = [x.arg for x in a.args]
+        for nm, d in zip(pos[len(pos) - len(a.defaults):], a.defaults):
+            defaults[nm] = d
+        for x, d in zip(a.kwonlyargs, a.kw_defaults):
+            if d is not None:
+                defaults[x.arg] = d
         for n in names:
             if n not in c.params:
+                d = defaults.get(n)
+                if isinstance(d, ast.Constant) and (d.value is None or isinstance(d.value, (bool, int, float, str))):
+                    # a parameter the contract does not know, with a constant default: an optional parameter added after the
+                    # contract was written.  The contract speaks about the calls that existed then, i.e. without it: it is fixed
+                    # at its default (what a call with the new argument does is outside every listed property's contract).
+                    env[n] = eng.ev_Constant(d, st)[0][1]
+                    k = "optional parameter outside the contract fixed at its default"
+                    eng.dropped[k] = eng.dropped.get(k, 0) + 1
+                    continue
                 raise Unsupported("parameter %s of %s has no type in the contract" % (n, qual))
             env[n] = fresh_param(eng, st, n, c.params[n])
         if a.kwarg is not None:
